@@ -398,6 +398,134 @@ theorem ctrlEmbed_shift [Zero R] [One R] (d : Nat) (U : Mat k R) (isCtrl : Fin n
   · simp [hc]
   · by_cases h1 : Bits.head d x = Bits.head d x' <;> simp [hc, h1]
 
+
+/-- **`Circuit.num_qubit` bounds every index**: every qubit index mentioned by an entry of the gate list is below
+`num_qubit` -/
+theorem numQubit_gt_index {α : Type} (c : List (RawOp α)) (g : RawOp α) (hg : g ∈ c) (q : Int) (hq : q ∈ g.indices) :
+    q < (numQubit c : Int) := by
+  have h1 : q ≤ g.maxIndex := by rw [maxIndex_eq]; exact foldl_max_ge_mem _ _ q hq
+  have h2 : g.maxIndex ≤ (c.map RawOp.maxIndex).foldl max 0 := foldl_max_ge_mem _ _ _ (List.mem_map_of_mem hg)
+  have h3 : (0 : Int) ≤ (c.map RawOp.maxIndex).foldl max 0 := foldl_max_ge_init _ _
+  unfold numQubit
+  omega
+
+/-- **… and is tight**: either `num_qubit = 1` or some entry mentions qubit `num_qubit - 1` -/
+theorem numQubit_tight {α : Type} (c : List (RawOp α)) :
+    numQubit c = 1 ∨ ∃ g ∈ c, ((numQubit c : Int) - 1) ∈ g.indices := by
+  have h3 : (0 : Int) ≤ (c.map RawOp.maxIndex).foldl max 0 := foldl_max_ge_init _ _
+  have hn : ((numQubit c : Nat) : Int) = (c.map RawOp.maxIndex).foldl max 0 + 1 := by unfold numQubit; omega
+  rcases foldl_max_mem (c.map RawOp.maxIndex) 0 with h | h
+  · left; unfold numQubit; rw [h]; rfl
+  · obtain ⟨g, hg, hgm⟩ := List.mem_map.1 h
+    rw [maxIndex_eq] at hgm
+    rcases foldl_max_mem g.indices 0 with h0 | h0
+    · left
+      have : (c.map RawOp.maxIndex).foldl max 0 = 0 := by rw [← hgm, h0]
+      unfold numQubit; rw [this]; rfl
+    · right
+      refine ⟨g, hg, ?_⟩
+      rw [hn, ← hgm]; simpa using h0
+
+/-- `shift_qubit_index_` adds `δ` to every index an entry mentions -/
+theorem shift_indices {α : Type} (δ : Int) (g : RawOp α) : (g.shift δ).indices = g.indices.map (· + δ) := by
+  cases g <;> simp [RawOp.shift, RawOp.indices]
+
+/-- **`shift_qubit_index_` on a unitary entry**: resolving the shifted entry against `d` more qubits gives the operator
+`1_d ⊗ (operator of the original entry)` -/
+theorem compile_shift_unitary [Zero R] [One R] (d n : Nat) (U : Array R) (t : List Int) (op : Op (n + 1) R)
+    (op' : Op (d + (n + 1)) R) (h : (RawOp.unitary U t).compile (n + 1) = some op)
+    (h' : ((RawOp.unitary U t).shift d).compile (d + (n + 1)) = some op') (x x' : Bits (d + (n + 1))) :
+    op'.matrix x x' = if Bits.head d x = Bits.head d x' then op.matrix (Bits.tail d x) (Bits.tail d x') else 0 := by
+  simp only [RawOp.compile] at h
+  split at h
+  · rename_i hc
+    simp only [Bool.and_eq_true, validIndex_iff] at hc
+    cases h
+    change RawOp.compile ((d + n) + 1) (RawOp.unitary U (t.map (· + (d : Int)))) = some op' at h'
+    simp only [RawOp.compile] at h'
+    split at h'
+    · rename_i hc'
+      simp only [Bool.and_eq_true, validIndex_iff] at hc'
+      cases h'
+      simp only [Op.matrix]
+      have hk : (t.map (· + (d : Int))).length = t.length := List.length_map _
+      rw [embed_cast_k hk U (fun j => Fin.natAdd d (mkTarget n t j)) _ ?_, embed_shift]
+      intro j
+      apply Fin.ext
+      have e1 := mkTarget_val (n := d + n) hc'.1.1.1 j
+      have e2 := mkTarget_val (n := n) hc.1.1.1 (Fin.cast hk j)
+      have : ((mkTarget (d + n) (t.map (· + (d : Int))) j).val : Int)
+          = ((Fin.natAdd d (mkTarget n t (Fin.cast hk j))).val : Int) := by
+        rw [e1, Fin.val_natAdd, Nat.cast_add, e2]
+        simp [add_comm]
+      exact_mod_cast this
+    · cases h'
+  · cases h
+
+
+/-- **`shift_qubit_index_` on a controlled entry** (controls and targets shifted together): again `1_d ⊗ operator` -/
+theorem compile_shift_control [Zero R] [One R] (d n : Nat) (U : Array R) (c t : List Int) (op : Op (n + 1) R)
+    (op' : Op (d + (n + 1)) R) (h : (RawOp.control U c t).compile (n + 1) = some op)
+    (h' : ((RawOp.control U c t).shift d).compile (d + (n + 1)) = some op') (x x' : Bits (d + (n + 1))) :
+    op'.matrix x x' = if Bits.head d x = Bits.head d x' then op.matrix (Bits.tail d x) (Bits.tail d x') else 0 := by
+  simp only [RawOp.compile] at h
+  split at h
+  · cases h
+  · rename_i n1 hlen
+    split at h
+    · rename_i hc
+      simp only [Bool.and_eq_true, validIndex_iff] at hc
+      cases h
+      change RawOp.compile ((d + n) + 1) (RawOp.control U (c.map (· + (d : Int))) (t.map (· + (d : Int)))) = some op' at h'
+      simp only [RawOp.compile] at h'
+      split at h'
+      · cases h'
+      · rename_i n2 hlen'
+        split at h'
+        · rename_i hc'
+          simp only [Bool.and_eq_true, validIndex_iff] at hc'
+          cases h'
+          obtain ⟨_, _, _, h4⟩ := ctrl_data (n' := n1) hlen hc.1.1.1 hc.1.1.2
+          obtain ⟨_, _, _, h4'⟩ := ctrl_data (n' := n2) hlen' hc'.1.1.1 hc'.1.1.2
+          simp only [Op.matrix]
+          have hk : (t.map (· + (d : Int))).length = t.length := List.length_map _
+          have hctrl : (fun i : Fin (d + (n + 1)) => (c.map (· + (d : Int))).contains (i.val : Int))
+              = fun i : Fin (d + (n + 1)) => Fin.addCases (fun _ => false) (fun b : Fin (n + 1) => c.contains (b.val : Int)) i := by
+            funext i
+            refine Fin.addCases (m := d) (n := n + 1) (fun a => ?_) (fun b => ?_) i
+            · rw [Fin.addCases_left]
+              simp only [List.contains_eq_mem, List.mem_map, decide_eq_false_iff_not, Fin.val_castAdd]
+              rintro ⟨y, hy, e⟩
+              have := (hc.1.1.1 y (List.mem_append_left _ hy)).1
+              have := a.isLt
+              omega
+            · rw [Fin.addCases_right]
+              simp only [List.contains_eq_mem, List.mem_map, Fin.val_natAdd, Nat.cast_add, decide_eq_decide]
+              constructor
+              · rintro ⟨y, hy, e⟩
+                have : y = (b.val : Int) := by omega
+                rw [← this]; exact hy
+              · intro hb; exact ⟨_, hb, by omega⟩
+          refine Eq.trans (congrFun (congrFun (ctrlEmbed_cast_k (n := d + (n + 1)) hk U
+            (fun i => Fin.addCases (fun _ => false) (fun b : Fin (n + 1) => c.contains (b.val : Int)) i) _ (congrFun hctrl)
+            (fun j => Fin.natAdd d (Fin.ofNat (n + 1) ((freeQubits (n + 1) c).getD
+              (Fin.ofNat (n1 + 1) (List.idxOf (t.getD j.val 0).toNat (freeQubits (n + 1) c))).val 0))) _ ?_) x) x') ?_
+          swap
+          · exact ctrlEmbed_shift d _ _ _ x x'
+          intro j
+          apply Fin.ext
+          have e1 := h4' j
+          have e2 := h4 (Fin.cast hk j)
+          dsimp only at e1 e2
+          simp only [List.getElem_map, Fin.val_cast] at e1 e2
+          refine Int.ofNat_inj.1 ?_
+          simp only [Fin.val_natAdd, Nat.cast_add, Fin.val_cast]
+          rw [e1, e2]
+          ring
+        · cases h'
+    · cases h
+
+
 /-! ### the embedded operator is `kron` + axis permutation -/
 
 /-- on the full register in natural order the embedding is the operator itself -/
